@@ -459,6 +459,10 @@ func txCase(rng *rand.Rand, cs, table tla.Value, p bloomParams, st *stats) (*blo
 		replay["inserted_beforehand"] = pres
 		c.AddTraces(1)
 		st.add("tx")
+		if flag == "p2pubkey" && len(outs) == 2 && outs[0].class == "multisig" && outs[0].hit == 2 && outs[1].class == "p2pkh" && outs[1].hit == 1 && !cs.F("txid").Bool() && len(ins) == 1 && !ins[0].opHit && !ins[0].pushHit {
+			c.Sample(map[string]any{"kind": "bloom-match-tx-and-update", "filter": p.String(), "case": cs.String(), "table": table.String(),
+				"spec_matched_on_real_positions": ex.F("matched").Bool(), "spec_outpoints_matching_afterwards": boolsOf(ex.F("after"))})
+		}
 		var got bool
 		if pn := guard(func() { got = f.MatchTxAndUpdate(btcutil.NewTx(tx)) }); pn != nil {
 			c.Violation("bloom:panic", fmt.Sprintf("MatchTxAndUpdate panics (%s): %v", p, pn), replay)
